@@ -408,10 +408,13 @@ def rule_default(chk):
     kw = {k.arg: k.value for k in ctor.keywords} if ctor else {}
     v = kw.get("_json_default")
     ok = False
+    jparam = "json_default" if "json_default" in f.params else None
     if isinstance(v, ast.Name):
         vals = assigned_values(f, v.id)
-        if v.id in f.params and len(vals) == 1 and isinstance(vals[0], ast.Call) and helper in ctx.targets(f, vals[0]):
-            ok = any(isinstance(a, ast.Name) and a.id == v.id for a in vals[0].args)
+        if len(vals) == 1 and isinstance(vals[0], ast.Call) and helper in ctx.targets(f, vals[0]):
+            # the shim's result, under the parameter's own name or a new local; the shim receives the caller's json_default
+            src = v.id if v.id in f.params else jparam
+            ok = src is not None and any(isinstance(a, ast.Name) and a.id == src for a in vals[0].args) and (v.id in f.params or not stores_to_name(f, src))
         elif v.id in f.params and not vals:
             ok = True
     chk.req(ok, "C10.default", "FileDestination.__new__:json_default-passed-through", chk.where(f),
